@@ -31,6 +31,28 @@ fn main() {
             }
         }
     }
+    if prop == "hist-json" {
+        // rustun-verif hist-json <ID> <fuzzer input> <out.json>: the history a fz_history input decodes to, as a replay file
+        if args.len() < 5 {
+            usage();
+        }
+        let data = std::fs::read(&args[3]).unwrap_or_default();
+        let mut u = arbitrary::Unstructured::new(&data);
+        match rustun_verif::fuzzgen::history_from(&mut u) {
+            Ok(h) => {
+                let body = serde_json::json!({"property": args[2], "check": "history", "reason": "libFuzzer artifact (fz_history)", "case": h});
+                if std::fs::write(&args[4], serde_json::to_string_pretty(&body).unwrap()).is_err() {
+                    eprintln!("INCONCLUSIVE: cannot write {}", args[4]);
+                    std::process::exit(2);
+                }
+                std::process::exit(0);
+            }
+            Err(e) => {
+                eprintln!("INCONCLUSIVE: input does not decode to a history: {}", e);
+                std::process::exit(2);
+            }
+        }
+    }
     if args[2] == "--replay" {
         if args.len() < 4 {
             usage();
